@@ -222,6 +222,8 @@ pub enum Pres {
 impl Pres {
     pub fn kind(&self) -> &'static str {
         match self {
+            Pres::Direct { offset: 252, .. } => "direct-labels-with-coarse-hash",
+            Pres::Direct { offset: 253..=255, .. } => "direct-huge-usize-labels",
             Pres::Direct { .. } => "direct",
             Pres::Iccma => "iccma",
             Pres::IccmaRepeated { .. } => "iccma-repeated-line",
@@ -234,7 +236,8 @@ impl Pres {
 pub fn pres(nmax: usize) -> BoxedStrategy<Pres> {
     prop_oneof![
         60 => (0u8..3, vec(any::<u8>(), nmax)).prop_map(|(o, k)| Pres::Direct { offset: o * 7, order_keys: k }),
-        5 => (253u8..=255, vec(any::<u8>(), nmax)).prop_map(|(o, k)| Pres::Direct { offset: o, order_keys: k }),
+        // 252: labels of a type with a coarse Hash; 253-255: label ranges around isize::MAX, 2^32, usize::MAX
+        9 => (252u8..=255, vec(any::<u8>(), nmax)).prop_map(|(o, k)| Pres::Direct { offset: o, order_keys: k }),
         40 => Just(Pres::Iccma),
         1 => (any::<u16>(), prop_oneof![6 => 2u32..40, 3 => 250u32..262, 1 => 600u32..700]).prop_map(|(line, times)| Pres::IccmaRepeated { line, times }),
         40 => (prop_oneof![10 => 0u8..4, 1 => Just(4u8)], vec(any::<u8>(), nmax)).prop_map(|(s, k)| Pres::Apx { style: s, order_keys: k }),
@@ -248,7 +251,8 @@ pub fn pres(nmax: usize) -> BoxedStrategy<Pres> {
 pub fn pres_compact(nmax: usize) -> BoxedStrategy<Pres> {
     prop_oneof![
         60 => (0u8..3, vec(any::<u8>(), nmax)).prop_map(|(o, k)| Pres::Direct { offset: o * 7, order_keys: k }),
-        5 => (253u8..=255, vec(any::<u8>(), nmax)).prop_map(|(o, k)| Pres::Direct { offset: o, order_keys: k }),
+        // 252: labels of a type with a coarse Hash; 253-255: label ranges around isize::MAX, 2^32, usize::MAX
+        9 => (252u8..=255, vec(any::<u8>(), nmax)).prop_map(|(o, k)| Pres::Direct { offset: o, order_keys: k }),
         40 => Just(Pres::Iccma),
         1 => (any::<u16>(), prop_oneof![6 => 2u32..40, 3 => 250u32..262, 1 => 600u32..700]).prop_map(|(line, times)| Pres::IccmaRepeated { line, times }),
         40 => (prop_oneof![10 => 0u8..4, 1 => Just(4u8)], vec(any::<u8>(), nmax)).prop_map(|(s, k)| Pres::Apx { style: s, order_keys: k }),
